@@ -150,4 +150,14 @@ CLAIMED['C20'] = {
     'technique': 'contract-based deductive verification (frame/assigns(fs) clauses: call-graph closure + guard path conditions by symbolic execution over a ghost file system, z3) + bounded before/after oracle',
 }
 
+CLAIMED['C15'] = {
+    'category': 'proof',
+    'text': 'Every effect boundary (crash point, with torn writes) and every single-OSError exit of the real _migrate_csv_to_rules and migrate_v0_to_v1 is enumerated by '
+            'symbolic execution over a ghost file system and checked: no user content lost; the budget classifies with the user\'s rules now or after re-running; never an empty '
+            'rule set while the rules are on disk. effective_rules(fs) is the selection function proved for load_config (C11). One recorded known finding (torn settings key line). '
+            'Fault injection on real directories is the labelled bounded oracle.',
+    'level_note': _BASE_NOTE + ' File-system model A9: atomic rename, any prefix of a write may persist, single crash or single fault, paths are atoms; conversion fidelity is C14.',
+    'technique': 'contract-based deductive verification over a ghost file system (obligation at every effect boundary of the real functions) + bounded fault-injection oracle on real directories',
+}
+
 NOT_APPLICABLE = {}
